@@ -84,9 +84,10 @@ def r2(p, rep):
     # where a registered factory is run (by role, wherever that code lives): a `try` whose handler catches every
     # Exception and builds an InvalidBackend; its body holds the factory call
     bm = p.module("frontend.backend")
+    rm = p.cls("BackendRegistryState", "frontend.backend").module  # the registry classes may live in a module of their own
     sites = []
     for f in p.funcs.values():
-        if f.module is not bm or not isinstance(f.node, (ast.FunctionDef, ast.AsyncFunctionDef)):
+        if not (f.module is bm or f.module is rm) or not isinstance(f.node, (ast.FunctionDef, ast.AsyncFunctionDef)):
             continue
         for t in walk_no_nested(f.node):
             if isinstance(t, ast.Try):
